@@ -47,6 +47,7 @@ def gen(rng, tier, idx):
     elif u < 0.07:
         wp['n_leaves'] = 24          # 276 pairs: pair indices past 2**8
     wp['zero_var'] = rng.choice([0.0, 0.15, 0.4])
+    wp['dup_genes'] = rng.choice([0, 0, 2, 4, 8])      # blocks of genes with exactly tied p-values
     route = rng.choice(['direct', 'direct', 'direct', 'pmask'])
     th = {'p_th': rng.choice([0.01, 0.05, 0.2, 0.5]),
           'q1_th': rng.choice([0.5, 0.45, 0.55, 0.3]), 'q1_min_th': rng.choice([0.1, 0.05, 0.2]),
